@@ -42,7 +42,7 @@ def denominators(prop, tier, seed, a):
                 continue
             groups = denom.groups_for(w, tier, seed)
             t = {'ll': llpath, 'meta': w, 'cfg': cfg.name, 'prop': prop, 'budget': budget, 'known': kf, 'ir_hash': h, 'also': [],
-                 'handler': 'avelverif.denom.solve_task', 'groups': groups, 'tier': tier, 'soft_s': 25 if tier == 'quick' else 2400}
+                 'handler': 'avelverif.denom.solve_task', 'groups': groups, 'tier': tier, 'soft_s': (15 if prop == 'C15' else 25) if tier == 'quick' else 2400}
             dedup[key] = t
             tasks.append(t)
     print('[%s %s] %d configurations, %d wrappers x divisor lattices to decide (%d identical-IR duplicates folded), %d dropped at compile time'
